@@ -15,8 +15,9 @@ import re
 from vlib import build, common
 
 JOB_HISTORIES = {"quick": 125, "thorough": 2500}
-TOTAL = {"quick": 2000, "thorough": 160000}
-MAX_SHRINKS = 40
+TOTAL = {"quick": 2000, "thorough": 400000}
+MAX_SHRINKS = 72
+CHUNK = 125
 
 
 def asan_env(fill):
@@ -45,6 +46,22 @@ def make_jobs(tier, seed, scale):
     return jobs
 
 
+def canon_key(res):
+    """Key of a shrunk alarm. Residue seen in the public state: field | architecture family | operation that should have
+    cleaned it (stable over seeds; the minimal history goes to `what`). Output-level alarm whose minimal history also shows
+    such residue: keyed as its consequence (the minimal history of those depends on the memory layout)."""
+    key, note = res["key"], ""
+    states = sorted(x for x in res.get("also", "").split() if x.startswith("state:"))
+    if res["cls"].startswith("state:"):
+        m = re.match(r"after (\w+),", res["what"] or "")
+        fam = "a64" if "init(a64" in res["minimal"] else "x86"
+        key = "%s|%s|after-%s" % (res["cls"], fam, m.group(1) if m else "?")
+    elif states:
+        key = "%s|consequence:%s" % (states[0], res["cls"])
+        note = " | the same minimal history shows %s" % " ".join(states)
+    return key, note
+
+
 def last_history(err):
     m = re.findall(rb"@h (\d+)", err)
     return int(m[-1]) if m else None
@@ -71,7 +88,8 @@ def run(tier, args):
         if res is None:
             raise common.HarnessError("replay: driver produced no shrink result")
         if res["cls"] != "none":
-            chk.violation(res["key"], "%s | minimal history: %s" % (res["what"], res["minimal"]), case)
+            key, note = canon_key(res)
+            chk.violation(key, "%s | minimal history: %s%s" % (res["what"], res["minimal"], note), case)
         chk.coverage.update({"evaluations": 1, "distinct_nontrivial": 2, "rule": "replay of one recorded history"})
         return chk.finish()
 
@@ -85,10 +103,10 @@ def run(tier, args):
         end = first + count
         summaries, crashes = [], []
         cur = first
-        for _ in range(16):
-            if cur >= end:
-                break
-            rc, out, err = drv(["--seed", seed_arg, "--first", str(cur), "--histories", str(end - cur)], job["fill"])
+        budget = 64          # sanitizer aborts tolerated per shard before the rest of it is given up (reported as a note)
+        while cur < end:
+            stop = min(end, cur + CHUNK)
+            rc, out, err = drv(["--seed", seed_arg, "--first", str(cur), "--histories", str(stop - cur)], job["fill"])
             res = None
             try:
                 res = json.loads(out.decode().strip().splitlines()[-1])
@@ -96,8 +114,8 @@ def run(tier, args):
                 pass
             if res is not None and rc == 0:
                 summaries.append(res)
-                cur = end
-                break
+                cur = stop
+                continue
             idx = last_history(err)
             if rc == 0:
                 raise common.HarnessError("driver %s exited 0 without a parsable summary: %s" % (argv, out[-300:]))
@@ -113,6 +131,10 @@ def run(tier, args):
                 except Exception:
                     pass
             cur = idx + 1
+            budget -= 1
+            if budget <= 0:
+                crashes.append({"idx": -1, "rc": 0, "report": None, "tail": "gave up shard after 64 aborts; histories %d..%d not run" % (cur, end)})
+                break
         return job, seed_arg, summaries, crashes
 
     results = common.parallel_map(one, jobs)
@@ -158,6 +180,9 @@ def run(tier, args):
                 else:
                     alarms.append((v["key"], seed_arg, v["idx"], job["fill"], v["what"] + " | history: " + v["history"], v["id"]))
         for c in crashes:
+            if c["idx"] < 0:
+                chk.note(c["tail"])
+                continue
             rep = c["report"]
             if rep:
                 top = next((f for f in rep["frames"] if "asmjit" in f and "drv_reuse" not in f), rep["frames"][0] if rep["frames"] else "?")
@@ -178,11 +203,19 @@ def run(tier, args):
     by_key = {}
     for a in alarms:
         by_key.setdefault(a[0], []).append(a)
+    # one representative per coarse key first (residue seen in the public state first: deterministic and cheap to shrink),
+    # a second one while the budget lasts; every history of a leak window
+    order = sorted(by_key, key=lambda k: (not k.startswith("state:"), k))
     todo = []
-    for key in sorted(by_key):
-        reps = by_key[key][:32] if key == "leak" else by_key[key][:2]
-        todo += reps
-    todo = todo[:MAX_SHRINKS + (32 if "leak" in by_key else 0)]
+    if "leak" in by_key:
+        todo += by_key["leak"][:64]
+    for rnd in range(2):
+        for key in order:
+            if key != "leak" and len(by_key[key]) > rnd and len(todo) < MAX_SHRINKS + (64 if "leak" in by_key else 0):
+                todo.append(by_key[key][rnd])
+    not_examined = sorted(k for k in by_key if not any(a[0] == k for a in todo))
+    if not_examined:
+        chk.note("shrink budget exhausted; coarse alarm keys not examined: %s" % ", ".join(not_examined)[:1500])
 
     def do_shrink(a):
         return a, shrink(a[1], a[2], a[3], a[5])
@@ -194,23 +227,18 @@ def run(tier, args):
         if res is None or res["cls"] == "none":
             if prelim == "leak":
                 continue            # a history of the window that does not leak
+            states0 = [x for x in (res or {}).get("also", "").split() if x.startswith("state:")]
+            if states0:
+                # memory-layout dependent consequence of residue that the same history shows in the emitter's public state
+                chk.violation("%s|consequence:%s" % (sorted(states0)[0], target), what + " [flaky when run alone; the history shows %s]" % " ".join(sorted(states0)), case)
+                continue
+            if prelim == "hang":
+                chk.note("watchdog fired in history %s of seed %s but the history finishes when run alone: not a verdict" % (idx, seed_arg))
+                continue
             # not reproducible in isolation (depends on the heap state earlier histories left): keep the coarse key
             chk.violation("unshrunk:" + prelim, what + " [did not reproduce when the history ran alone]", case)
             continue
-        key = res["key"]
-        note = ""
-        states = [x for x in res.get("also", "").split() if x.startswith("state:")]
-        if states and not res["cls"].startswith("state:"):
-            # the minimal history of this output-level alarm also shows residue in the emitter's public state: the alarm is
-            # keyed as a consequence of that residue (stable key; the memory-layout dependent minimal history goes to `what`)
-            key = "%s|consequence:%s" % (sorted(states)[0], res["cls"])
-            note = " | the same minimal history shows %s" % " ".join(sorted(states))
-        if res["cls"].startswith("state:"):
-            # residue in the public state: the key names the field, the architecture family and the operation that should have
-            # cleaned it (stable over seeds); the minimal history itself goes to `what`
-            m = re.match(r"after (\w+),", res["what"] or "")
-            fam = "a64" if "init(a64" in res["minimal"] else "x86"
-            key = "%s|%s|after-%s" % (res["cls"], fam, m.group(1) if m else "?")
+        key, note = canon_key(res)
         shrunk_keys.setdefault(key, 0)
         shrunk_keys[key] += 1
         chk.violation(key, "%s | %s | minimal history: %s%s | %d histories with coarse key '%s'" %
